@@ -214,7 +214,7 @@ def body_from_key(key):
 
 
 def work(key):
-    ex = Explorer()
+    ex = Explorer(max_paths=20000, budget_s=120, max_cex=50)
     ex.run(body_from_key(key))
     res = worker_result(ex, samples=[{"harness": list(key), "paths": ex.stats.paths}])
     for c in res["cexs"]:
@@ -253,13 +253,13 @@ def main(tier, seed):
     for r in pmap(work, keys):
         rep.merge_worker("messages", r)
     rep.section("messages", None, harnesses=len(keys))
-    ex = Explorer()
+    ex = Explorer(max_paths=3000, budget_s=90)
     ex.run(body_struct_msg("host", "InitNewAppMessage", falsify=True))
     rep.witness("InitNewAppMessage with oracle 'app_id != 77'", any(c.values.get("app_id") == 77 for c in ex.cexs))
 
     def one():
         if codec.MODEL:
-            Explorer().run(body_retarr((True, False)))
-            Explorer().run(body_struct_msg("host", "OpenEPRSocketMessage"))
+            Explorer(max_paths=4, budget_s=30).run(body_retarr((True, False)))
+            Explorer(max_paths=4, budget_s=30).run(body_struct_msg("host", "OpenEPRSocketMessage"))
     rep.functions_encoded |= trace_functions(one)
     return rep.finish(replay)
